@@ -130,8 +130,13 @@ func genC04(t *rapid.T) *C04Case {
 	switch rapid.IntRange(0, 5).Draw(t, "worldkind") {
 	case 0:
 		a = GenWorld(t, GenCfg{Admin: true, NoNamedRisk: true})
-	case 1:
+	case 1, 2:
 		a = GenIngressWorld(t, false)
+		// a Service without selector (the tool ignores it, with a warning): here the oracle is `list` itself, so the
+		// shape is in the domain although the C10 reference model is silent on it
+		if len(a.Services) > 0 && rapid.IntRange(0, 2).Draw(t, "selectorless") == 0 {
+			a.Services[rapid.IntRange(0, len(a.Services)-1).Draw(t, "selectorlesssvc")].Selector = nil
+		}
 	default:
 		a = GenWorld(t, GenCfg{NoNamedRisk: true})
 	}
